@@ -457,6 +457,67 @@ def judge(ctx, ds, cases, results, needs, model, stats):
             stats["refused"] += 1
 
 
+# ----------------------------------------------------------------------------- shrinking
+class _Probe:
+    """stands in for ctx inside judge(): records instead of reporting"""
+    def __init__(self):
+        self.v, self.m = [], []
+
+    def violation(self, case, why, signature=None):
+        self.v.append((case, why))
+        return True
+
+    def mismatch(self, case, detail):
+        self.m.append((case, detail))
+
+    def note(self, text):
+        pass
+
+
+def fails_on(ctx, exe, needs, ds, c):
+    refc = make_case(c["m"], "M", "", "range", "eigen", c.get("src", "eigen"),
+                     {k: v for k, v in c.items() if k not in ("m", "fam", "order", "entry", "back", "src")})
+    cases = [refc, c]
+    results = run_cases(ctx, exe, ds, cases)
+    probe = _Probe()
+    judge(probe, ds, cases, results, needs, None, new_stats())
+    return probe.v
+
+
+def shrink_dataset(ctx, exe, needs, ds, c):
+    """fewest leading samples on which the same call still violates the property (one pass, <= 8 probes)"""
+    n, dim = ds["N"], ds["D"]
+    floor = max(8, int(c.get("k", 5)) + 3, int(3 * float(c.get("perp", 2.0))) + 2)
+    best = None
+    for m in sorted(set([floor, floor + 2, floor + 4, n // 2, (3 * n) // 4])):
+        if floor <= m < n:
+            small = dict(ds, N=m, x=ds["x"][:m * dim])
+            v = fails_on(ctx, exe, needs, small, c)
+            if v:
+                best = (small, v[0][1])
+                break
+    return best
+
+
+def shrink_violations(ctx, exe, needs, limit=3):
+    """replace the data set of the first few recorded violations by a smaller one that still fails"""
+    done = 0
+    for i, (case, why) in enumerate(list(ctx._violations)):
+        if done >= limit:
+            break
+        if not (isinstance(case, dict) and "data" in case and "run" in case):
+            continue
+        try:
+            best = shrink_dataset(ctx, exe, needs, case["data"], case["run"])
+        except Exception:       # shrinking is best effort
+            best = None
+        done += 1
+        if best is not None:
+            small, why2 = best
+            ctx._violations[i] = (replay_obj(small, case["run"]), why2 + "  [data set shrunk from %d to %d samples]"
+                                  % (case["data"]["N"], small["N"]))
+
+
 # ----------------------------------------------------------------------------- translators
 def regenerate(ctx, restore):
     """run both translators on ctx.repo; write coq/gen/*.v when the text differs (the originals are put back at
@@ -489,6 +550,9 @@ def regenerate(ctx, restore):
 
 
 def translator_self_tests(ctx):
+    """mutate scratch copies of the sources and see the translators' output change.  This validates the
+    TRANSLATORS (trusted base), not the library: a failure is recorded in the evidence and printed, it is never
+    a property verdict (the verdict depends only on the translators' output on the real tree)."""
     import contextlib
     import io
     ok = True
@@ -498,6 +562,7 @@ def translator_self_tests(ctx):
             with contextlib.redirect_stdout(buf):
                 mod.self_test(ctx.repo)
         except Exception as ex:
+            ok = False
             ctx.note("%s self-test could not run on this tree: %r" % (name, ex))
             continue
         lines = buf.getvalue().splitlines()
@@ -508,8 +573,8 @@ def translator_self_tests(ctx):
                  % (name, seen, len(skipped), len(fails)))
         if fails:
             ok = False
-            ctx.unshown("%s self-test: a mutation of the source did not change the translator's output: %s"
-                        % (name, fails[0][:200]))
+            ctx.note("%s self-test FAILED (translator problem, not a verdict): %s" % (name, fails[0][:300]))
+            print("note: %s self-test failed (translator problem, not a property verdict): %s" % (name, fails[0][:200]))
     return ok
 
 
@@ -689,6 +754,8 @@ def _run(ctx, restore):
     if ctx.is_unshown() and not ctx.has_violation():
         ctx.note("search phase: proof / translator / correspondence no longer checks; running the thorough plan")
         n += evaluate(ctx, exe, mexe, needs, plan(ctx, "thorough", rng, extra_search=True), "thorough", rng, stats, samples)
+    if ctx.has_violation():
+        shrink_violations(ctx, exe, needs)
     distinct = len(stats.pop("distinct"))
     over = []
     if summ is not None:
